@@ -20,6 +20,9 @@ pub enum CallerClass {
     SameKeyTwoIds,
     RightKeyWrongId,
     AllOwners,
+    /// the signers plus one more trusted key whose declared scheme is not implemented; the layout carries
+    /// a (necessarily worthless) signature entry labelled with that key's id
+    PlusUnknownSchemeKey,
 }
 
 #[derive(Clone, Debug, Serialize, Deserialize, PartialEq, Eq)]
@@ -75,6 +78,7 @@ fn caller_list(spec: &Spec, signers: &[KeySpec]) -> Vec<(Option<String>, KeySpec
             v
         }
         CallerClass::RightKeyWrongId => signers.iter().enumerate().map(|(i, k)| (Some(format!("{:064x}", i + 1)), k.clone())).collect(),
+        CallerClass::PlusUnknownSchemeKey => own_ids(signers),
     }
 }
 
@@ -113,7 +117,7 @@ impl Property for C01 {
             prop_oneof![
                 Just(CallerClass::Empty), Just(CallerClass::ExactSigners), Just(CallerClass::ExactSigners), Just(CallerClass::SubsetOfSigners),
                 Just(CallerClass::SupersetWithNonSigner), Just(CallerClass::Disjoint), Just(CallerClass::SameKeyTwoIds),
-                Just(CallerClass::RightKeyWrongId), Just(CallerClass::AllOwners), Just(CallerClass::AllOwners),
+                Just(CallerClass::RightKeyWrongId), Just(CallerClass::AllOwners), Just(CallerClass::AllOwners), Just(CallerClass::PlusUnknownSchemeKey),
             ],
             proptest::option::weighted(0.4, tree_edit()),
             proptest::option::weighted(
@@ -172,7 +176,36 @@ impl Property for C01 {
         let dir = env.fresh_dir("c01");
         let info = write_world(&w, &dir);
         let j = judge(&w, &info, &caller_keys, now, true);
-        let Some(r) = run_verify(&info, &caller, &dir, None) else {
+        let mut info = info;
+        let mut j = j;
+        let r = if spec.caller == CallerClass::PlusUnknownSchemeKey {
+            // append a signature entry for the unknown-scheme key and trust that key as well
+            let u = unknown_scheme_key(spec.owners.last().unwrap());
+            let uid = serde_json::to_value(u.key_id()).unwrap().as_str().unwrap().to_string();
+            let genuine = w.sigs.first().map(|_| "00".to_string()).unwrap_or_else(|| "00".into());
+            if let Ok(mut v) = serde_json::from_str::<serde_json::Value>(&info.layout_text) {
+                if let Some(a) = v["signatures"].as_array_mut() {
+                    a.push(serde_json::json!({"keyid": uid, "sig": genuine}));
+                }
+                info.layout_text = v.to_string();
+            }
+            j.violated.push(Cond::OwnerSig(uid));
+            match serde_json::from_str::<in_toto::models::Metablock>(&info.layout_text) {
+                Ok(block) => {
+                    let mut keys = std::collections::HashMap::new();
+                    for k in &caller_keys {
+                        let pk = public(k);
+                        keys.insert(pk.key_id().clone(), pk);
+                    }
+                    keys.insert(u.key_id().clone(), u);
+                    run_verify_keys(&block, keys, &dir, None)
+                }
+                Err(_) => None,
+            }
+        } else {
+            run_verify(&info, &caller, &dir, None)
+        };
+        let Some(r) = r else {
             o.class("layout-text-unparseable");
             let _ = std::fs::remove_dir_all(&dir);
             return o;
